@@ -350,7 +350,7 @@ func (c *Cfg) YAML(root string) string {
 		sub := &yw{ind: 1}
 		sub.str("arch", c.ApkArch)
 		c.scriptBlock(sub, root, "apk.", []string{"preupgrade", "postupgrade"})
-		if c.ApkSigKey != "" {
+		if c.ApkSigKey != "" || c.ApkSigKeyName != "" {
 			sub.open("signature")
 			sub.str("key_file", c.ApkSigKey)
 			sub.str("key_name", c.ApkSigKeyName)
